@@ -9,6 +9,7 @@ import NdnProofs.Props.C15
 #print axioms Ndn.C15.default_exists
 #print axioms Ndn.C15.lost_only_by_deleting_default
 #print axioms Ndn.C15.views_agree
+#print axioms Ndn.C15.views_scoped
 #print axioms Ndn.C15.del_key_cascades
 #print axioms Ndn.C15.del_identity_cascades
 #print axioms Ndn.C15.signer_right_key
